@@ -26,7 +26,7 @@ func init() { core.Register(c06{}) }
 
 func (c06) ID() string { return "C06" }
 func (c06) Rule() string {
-	return "plans: a chain (leaf, intermediate, root) with per-certificate validity ends at 30 min / 2 h / 10 y after signing, a signing instant, an expiry duration (none, 1 h, 3 h), scheme (notary.x509, signing-authority), JWS / COSE, a policy with or without a tsa store x verifyTimestamp {unset, always, afterCertExpiry}, and a countersignature state: absent; good (issued by the in-simulation RFC 3161 TSA through the real signer, or spliced); over another message; from a TSA whose root is not in the policy's tsa stores, or only in an unlisted tsa store; from a TSA certificate without / with extra / with non-critical time-stamping purpose; TSA reported revoked / unknown by the time-stamping validator; TSA clock skewed so that genTime +/- accuracy touches or leaves a certificate's window by one second. The clock is then advanced through <= 6 verification instants from the world's boundary set ({expiry, each NotAfter} x {-1 s, -1 ns, 0, +1 ns, +1 s}) and far after. A second signature of the same signer with its own expiry is verified by the same process in between; the expiry action is log or enforce. non-trivial: every run with at least one instant at or beyond a boundary, or a countersignature; distinct: hash of (configuration, instants relative to boundaries, both verdicts)"
+	return "plans: a chain (leaf, intermediate, root) with per-certificate validity ends at 30 min / 2 h / 10 y after signing, a signing instant, an expiry duration (none, 1 h, 3 h), scheme (notary.x509, signing-authority), JWS / COSE, a policy with or without a tsa store x verifyTimestamp {unset, always, afterCertExpiry; in a quarter of the tsa plans spelled in another letter case - refused, or meant as spelled}, and a countersignature state: absent; good (issued by the in-simulation RFC 3161 TSA through the real signer, or spliced); over another message; from a TSA whose root is not in the policy's tsa stores, or only in an unlisted tsa store; from a TSA certificate without / with extra / with non-critical time-stamping purpose; TSA reported revoked / unknown by the time-stamping validator; TSA clock skewed so that genTime +/- accuracy touches or leaves a certificate's window by one second. The clock is then advanced through <= 6 verification instants from the world's boundary set ({expiry, each NotAfter} x {-1 s, -1 ns, 0, +1 ns, +1 s}) and far after. A second signature of the same signer with its own expiry is verified by the same process in between; the expiry action is log or enforce. non-trivial: every run with at least one instant at or beyond a boundary, or a countersignature; distinct: hash of (configuration, instants relative to boundaries, both verdicts)"
 }
 func (c06) Components() map[string]string {
 	return map[string]string{
